@@ -355,6 +355,12 @@ def relations(rng, tier, rpt):
                     elif outs[0] != outs[1]:
                         rep("%s: the same mnemonic object gives different answers when asked twice (call #%d, %s phrase)" % (name, fi, vname), " ".join(wlist), outs[1][:80], outs[0][:80])
     rpt.extra["mnemonic_object_checks"] = n_mn
+    def run_(f):
+        try:
+            return f()
+        except Exception as ex:  # noqa
+            return "!" + type(ex).__name__
+
     # (f) an object converted to public-only behaves as public-only whatever was called on it before (every wrapper with ConvertToPublic)
     from bip_utils import Bip32KeyError
     conv = [("Bip32Slip10Secp256k1", lambda: Bip32Slip10Secp256k1.FromSeed(sd), [3, 2**31 + 3]), ("Bip32KholawEd25519", lambda: Bip32KholawEd25519.FromSeed(sd), [3, 2**31 + 3])]
@@ -380,6 +386,42 @@ def relations(rng, tier, rpt):
                     rep("%s: after ConvertToPublic a soft child is refused" % name, str(i), "Bip32KeyError", "public child")
         if any(k.IsPublicOnly() for k in kids_before):
             rep("%s: converting the parent changed child objects derived earlier" % name, name, "public-only", "unchanged")
+    # ... and through the wallet wrappers that hold a hierarchy object: after wallet.Bip32Object().ConvertToPublic() every private
+    # accessor refuses with Bip32KeyError and every public accessor answers what it answered before, whether or not it was used earlier
+    import bip_utils as _B
+    ElectrumV2Segwit, ElectrumV2Standard, CardanoByronLegacy = _B.ElectrumV2Segwit, _B.ElectrumV2Standard, _B.CardanoByronLegacy
+    el_priv = [("GetPrivateKey(0, 1)", lambda o: o.GetPrivateKey(0, 1)), ("GetPrivateKey(1, 7)", lambda o: o.GetPrivateKey(1, 7)), ("MasterPrivateKey()", lambda o: o.MasterPrivateKey())]
+    el_pub = [("GetAddress(0, 1)", lambda o: o.GetAddress(0, 1)), ("MasterPublicKey()", lambda o: o.MasterPublicKey().RawCompressed().ToHex()),
+              ("GetPublicKey(1, 2)", lambda o: o.GetPublicKey(1, 2).RawCompressed().ToHex())]
+    b_priv = [("PrivateKey()", lambda o: o.PrivateKey().Raw().ToHex()), ("Change(EXT).PrivateKey()", lambda o: o.Change(Bip44Changes.CHAIN_EXT).PrivateKey().Raw().ToHex())]
+    b_pub = [("PublicKey()", lambda o: o.PublicKey().RawCompressed().ToHex()),
+             ("Change(EXT).AddressIndex(3).PublicKey()", lambda o: o.Change(Bip44Changes.CHAIN_EXT).AddressIndex(3).PublicKey().RawCompressed().ToHex())]
+    by_priv = [("GetPrivateKey(0, 1)", lambda o: o.GetPrivateKey(0, 1).Raw().ToHex()), ("MasterPrivateKey()", lambda o: o.MasterPrivateKey().Raw().ToHex())]
+    by_pub = [("MasterPublicKey()", lambda o: o.MasterPublicKey().RawCompressed().ToHex())]
+    wrappers = [("ElectrumV2Segwit", lambda: ElectrumV2Segwit(Bip32Slip10Secp256k1.FromSeed(sd)), el_priv, el_pub),
+                ("ElectrumV2Standard", lambda: ElectrumV2Standard(Bip32Slip10Secp256k1.FromSeed(sd)), el_priv, el_pub),
+                ("CardanoByronLegacy", lambda: CardanoByronLegacy.FromSeed(sd[:32]), by_priv, by_pub)]
+    for cls, coin in ((_B.Bip44, _B.Bip44Coins.BITCOIN), (_B.Bip44, _B.Bip44Coins.ETHEREUM), (_B.Bip49, _B.Bip49Coins.LITECOIN), (_B.Bip84, _B.Bip84Coins.BITCOIN),
+                      (_B.Bip86, _B.Bip86Coins.BITCOIN), (_B.Cip1852, _B.Cip1852Coins.CARDANO_ICARUS), (_B.Bip44, _B.Bip44Coins.SOLANA)):
+        wrappers.append(("%s[%s] account" % (cls.__name__, coin.name), (lambda cls=cls, coin=coin: cls.FromSeed(sd, coin).Purpose().Coin().Account(0)), b_priv,
+                         b_pub if coin != _B.Bip44Coins.SOLANA else b_pub[:1]))
+    for wname, mk, privs, pubs in wrappers:
+        for used_before in (True, False):
+            o = mk()
+            ref_pub = [run_(lambda: f(mk())) for _, f in pubs]
+            if used_before:
+                for _, f in privs + pubs:
+                    run_(lambda: f(o))
+            o.Bip32Object().ConvertToPublic()
+            n_cv += 1
+            for an, f in privs:
+                r = run_(lambda: f(o))
+                if r != "!Bip32KeyError":
+                    rep("%s: after Bip32Object().ConvertToPublic() (%s earlier use) %s still answers" % (wname, "with" if used_before else "without", an), an, str(r)[:80], "Bip32KeyError")
+            for (an, f), want in zip(pubs, ref_pub):
+                r = run_(lambda: f(o))
+                if r != want:
+                    rep("%s: after Bip32Object().ConvertToPublic() %s changed" % (wname, an), an, str(r)[:80], str(want)[:80])
     rpt.extra["converted_after_use_checks"] = n_cv
     for name, a, b in (("Bip32Path(elems)", elems, e0), ("Mnemonic.FromList(words)", words, w0), ("CborIndefiniteLenArrayEncoder.Encode(list)", ints, i0),
                        ("SplToken.FindPda(seeds)", seeds, s0)):
